@@ -179,12 +179,6 @@ def use_transform_class(src):
     return False
 
 
-def background_class(src, path, kind):
-    """KNOWN class background_path_abs: the path generated for the root `background-color` (first child of the group that
-    carries the root viewBox transform) keeps an identity abs_transform."""
-    return 'background-color' in src and kind in ('path', 'g') and path in ('/0/0', '/0', '')
-
-
 def stroke_skew_class(b):
     """KNOWN class stroke_box_skew: a stroked path whose abs_transform has skew / rotation and is not a pure rotation
     (Path::new strokes the transformed path with the untransformed stroke width); all painted pixels are inside the
@@ -376,8 +370,6 @@ def run(ctx):
         text = "abs_transform is not the product of the ancestors' transforms at group %r (%s) of %s" % (g['id'], path, name)
         if use_transform_class(src):
             ctx.known_or_violation('use_transform_twice', text, rep)
-        elif background_class(src, path, 'g'):
-            ctx.known_or_violation('background_path_abs', text, rep)
         elif reported < 3:
             ctx.violation(text, rep)
             reported += 1
@@ -416,8 +408,6 @@ def run(ctx):
             tree = trees.get(name)
             if use_transform_class(src) and tree is not None and in_use_subtree(tree, b['path']):
                 ctx.known_or_violation('use_transform_twice', text, rep)
-            elif background_class(src, b['path'], b['kind']):
-                ctx.known_or_violation('background_path_abs', text, rep)
             elif stroke_skew_class(b):
                 ctx.known_or_violation('stroke_box_skew', text, rep)
             elif dash_caps_class(b):
